@@ -4,7 +4,7 @@
        |a - b| <= 1e-9 * max(scale, |a|, |b|)
    where [scale] is 0 (purely relative) for quantities the implementation computes without
    cancellation and the natural magnitude of the intermediate otherwise; roots are compared squared. *)
-From Coq Require Import ZArith QArith Qabs Qminmax List Bool.
+From Coq Require Import ZArith QArith Qabs Qminmax Qround List Bool.
 From V Require Import Model.CasesLib Model.Metrics.
 Import ListNotations.
 Open Scope Q_scope.
@@ -51,6 +51,17 @@ Definition column_checks (c : colstats) (l : list Q) (k : Q) : list (obsv -> boo
     val_match (msq / sqr (c_mean c)) (c_cvstd c); num_match 0 (c_sum_sq c); num_match mx (c_median c);
     num_match (k * mx) (k * c_mad c); num_match mx (c_iqr c) ].
 
+(* mape with every quotient truncated to a multiple of 2^-80 (keeps the sum dyadic; the error is below
+   n * 2^-80, far inside the comparison tolerance) *)
+Definition two80 : positive := (2 ^ 80)%positive.
+Definition qtrunc (x : Q) : Q := Qmake (Qfloor (x * inject_Z (Zpos two80))) two80.
+Definition mape_trunc (d : list (Q * Q)) (mn : Q) : val :=
+  let nz := filter (fun r => Qle_bool mn (Qabs (fst r))) d in
+  match nz with
+  | [] => Undef
+  | _ => Num (Qred (qsum (map (fun r => qtrunc (Qabs ((fst r - snd r) / fst r))) nz) / qlen nz))
+  end.
+
 (* n' : tolerance version of [nprime_exact]; when rho is (within tolerance) -1 the implementation may
    take the fallback 1 or report a huge value, both are accepted *)
 Definition nprime_ok (n : Z) (rho : option (bool * Q)) (o : obsv) : bool :=
@@ -91,7 +102,7 @@ Definition baseline_checks (m : bmetrics) (d : list (Q * Q)) (p : Z) (mn k : Q) 
        val_match 0 (b_pnrmse m); val_match 0 (b_pnrmse_adj m); val_match 0 (pnrmse_autocorr_adj m np p mn);
        val_match 1 (b_r_squared m);
        val_match (Qmax 1 (inject_Z (n - 1) / inject_Z (b_ddof m - 1))) (b_r_squared_adj m);
-       val_match 0 (b_mape m) ].
+       val_match 0 (mape_trunc d mn) ].
 
 Definition baseline_fields (c : bcase) : list bool :=
   let rows := mk_rows (bc_den c) (bc_rows c) in
